@@ -137,8 +137,99 @@ def _stmt(s, loop_mode):
                       ast.Delete)):
         return [_Flow([("stmt", s)])]
     if isinstance(s, ast.Match):
-        raise AnalysisError("match statement not supported by the path model")
+        return _stmt(desugar_match(s), loop_mode)
     raise AnalysisError(f"statement kind {type(s).__name__} not supported")
+
+
+def desugar_match(m: ast.Match):
+    """match <subject>: case ... -> the if/elif chain it abbreviates, for the
+    pattern kinds the package's style uses: class patterns (isinstance tests,
+    keyword sub-patterns become attribute tests / bindings), value patterns
+    (==), `None`/`True`/`False` (is), or-patterns, captures and the wildcard.
+    Anything else is not understood (AnalysisError)."""
+    subj = m.subject
+    pre = []
+    if not isinstance(subj, (ast.Name, ast.Attribute)):
+        tmp = ast.Name(id="_match_subject", ctx=ast.Store())
+        pre.append(ast.Assign(targets=[tmp], value=subj, lineno=m.lineno,
+                              col_offset=0))
+        subj = ast.Name(id="_match_subject", ctx=ast.Load())
+
+    def conv(pat, val):
+        """-> (test expr or None for 'always', [binding statements])"""
+        if isinstance(pat, ast.MatchAs):
+            if pat.pattern is None:
+                binds = [] if pat.name is None else [ast.Assign(
+                    targets=[ast.Name(id=pat.name, ctx=ast.Store())], value=val,
+                    lineno=m.lineno, col_offset=0)]
+                return None, binds
+            t, b = conv(pat.pattern, val)
+            return t, b + [ast.Assign(
+                targets=[ast.Name(id=pat.name, ctx=ast.Store())], value=val,
+                lineno=m.lineno, col_offset=0)]
+        if isinstance(pat, ast.MatchValue):
+            return ast.Compare(left=val, ops=[ast.Eq()],
+                               comparators=[pat.value]), []
+        if isinstance(pat, ast.MatchSingleton):
+            return ast.Compare(left=val, ops=[ast.Is()],
+                               comparators=[ast.Constant(pat.value)]), []
+        if isinstance(pat, ast.MatchOr):
+            tests = []
+            for sub in pat.patterns:
+                t, b = conv(sub, val)
+                if b:
+                    raise AnalysisError("match: bindings inside an or-pattern")
+                if t is None:
+                    return None, []
+                tests.append(t)
+            return ast.BoolOp(op=ast.Or(), values=tests), []
+        if isinstance(pat, ast.MatchClass) and not pat.patterns:
+            tests = [ast.Call(func=ast.Name(id="isinstance", ctx=ast.Load()),
+                              args=[val, pat.cls], keywords=[])]
+            binds = []
+            for attr, sub in zip(pat.kwd_attrs, pat.kwd_patterns):
+                t, b = conv(sub, ast.Attribute(value=val, attr=attr,
+                                               ctx=ast.Load()))
+                if t is not None:
+                    tests.append(t)
+                binds += b
+            test = tests[0] if len(tests) == 1 else ast.BoolOp(
+                op=ast.And(), values=tests)
+            return test, binds
+        raise AnalysisError(f"match: pattern {ast.unparse(pat)} not understood")
+
+    chain = None
+    tail = None
+    for case in m.cases:
+        test, binds = conv(case.pattern, subj)
+        if case.guard is not None:
+            if binds:
+                raise AnalysisError("match: a guard over captured names")
+            test = case.guard if test is None else ast.BoolOp(
+                op=ast.And(), values=[test, case.guard])
+        body = binds + list(case.body)
+        if test is None:
+            if tail is None:
+                chain = chain or body
+                if chain is body:
+                    break
+            else:
+                tail.orelse = body
+            break
+        node = ast.If(test=test, body=body, orelse=[])
+        if chain is None:
+            chain = node
+        else:
+            tail.orelse = [node]
+        tail = node
+    if chain is None:
+        chain = ast.Pass()
+    out = ast.If(test=ast.Constant(True),
+                 body=pre + (chain if isinstance(chain, list) else [chain]),
+                 orelse=[])
+    ast.copy_location(out, m)
+    ast.fix_missing_locations(out)
+    return out
 
 
 def terminator(path):
